@@ -87,9 +87,26 @@ func (m *Model) Check(e, res string) []common.Violation {
 				fmt.Sprintf("node %d would terminate (log.Fatal) after %s: %s", i, e, m.nodes[i].Log.Fatals[0]), nil))
 		}
 	}
-	if m.on("C07") && kind == "T" && res == "ok" {
+	if m.on("C07") && (kind == "T" || kind == "TC") {
 		i := atoi(strings.Split(e, ":")[1])
-		out = append(out, m.checkC07(i, m.pre[i], post[i])...)
+		var vs []common.Violation
+		if kind == "T" && res == "ok" {
+			vs = m.checkC07(i, m.pre[i], post[i])
+		} else {
+			// a truncation that failed or was cancelled must leave the ledger as it was, or in a state that still satisfies the truncation invariants
+			vs = m.checkC07State(i, post[i])
+		}
+		vs = append(vs, m.checkC07NodeBalances(i, m.pre[i], post[i])...)
+		for k := range vs {
+			if m.cancelledTrunc[i] {
+				if kind == "T" && res == "ok" {
+					vs[k].Key += "/truncation-resumed-after-a-cancelled-one"
+				} else {
+					vs[k].Key += "/after-cancelled-truncation"
+				}
+			}
+		}
+		out = append(out, vs...)
 	}
 	if m.on("C06") {
 		out = append(out, m.checkC06(post)...)
